@@ -49,21 +49,24 @@ Proof. vm_compute. reflexivity. Qed.
 Lemma foreign_attr_adjust_deviation_exact : forall p,
   mem sq_eqb p foreign_attr_adjust = up_to (mem sq_eqb) whatwg_foreign_attr_adjust foreign_attr_extra foreign_attr_missing p.
 Proof. unfold up_to. apply (set_eqb_except_sound sq_eqb sq_eqb_ok). vm_compute. reflexivity. Qed.
+(* repaired in /repo (fix: bec9d13): the srcdoc arm now comes first, as in the standard *)
 Lemma quirks_arms_srcdoc_position :
-  map (fun a => qcond_eqb (fst a) QcSrcdoc) (firstn 3 quirks_arms) = [false; false; true] /\
+  map (fun a => qcond_eqb (fst a) QcSrcdoc) (firstn 1 quirks_arms) = [true] /\
   map (fun a => qcond_eqb (fst a) QcSrcdoc) (firstn 1 whatwg_quirks_decision) = [true].
 Proof. vm_compute. split; reflexivity. Qed.
 
-(* the two defect classes are real (computed on the regenerated tables) *)
+(* the two former defect classes (quirks mode of the Silmaril doctype; of a srcdoc document) are repaired: the
+   regenerated decision procedure now agrees with the standard on the two witnesses (before the fix: commits these
+   were refutations, gen = QNoQuirks / QQuirks) *)
 Definition dt_silmaril : doctype :=
   {| dt_name := Some "html"; dt_public := Some "+//Silmaril//dtd html Pro v0r11 19970101//EN"; dt_system := None;
      dt_force := false |}.
 Definition dt_foo : doctype := {| dt_name := Some "foo"; dt_public := None; dt_system := None; dt_force := false |}.
-Theorem gen_quirks_mode_refuted_silmaril :
-  gen_quirks_mode dt_silmaril false = QNoQuirks /\ whatwg_quirks_mode dt_silmaril false = QQuirks.
+Theorem gen_quirks_mode_repaired_silmaril :
+  gen_quirks_mode dt_silmaril false = QQuirks /\ whatwg_quirks_mode dt_silmaril false = QQuirks.
 Proof. vm_compute. split; reflexivity. Qed.
-Theorem gen_quirks_mode_refuted_srcdoc :
-  gen_quirks_mode dt_foo true = QQuirks /\ whatwg_quirks_mode dt_foo true = QNoQuirks.
+Theorem gen_quirks_mode_repaired_srcdoc :
+  gen_quirks_mode dt_foo true = QNoQuirks /\ whatwg_quirks_mode dt_foo true = QNoQuirks.
 Proof. vm_compute. split; reflexivity. Qed.
 
 
@@ -72,5 +75,5 @@ Example table_sizes :
   (length ts_special_tag, length ts_default_scope, length quirky_public_prefixes, length svg_tag_adjust,
    length svg_attr_adjust, length foreign_attr_adjust, length dispatch, length arms_InBody, length ser_void_elements,
    length (flat_map snd dispatch))
-  = (82, 18, 54, 37, 58, 11, 22, 51, 18, 212).
+  = (91, 19, 55, 37, 58, 11, 22, 51, 18, 212).
 Proof. vm_compute. reflexivity. Qed.
